@@ -2,10 +2,13 @@ use std::{
     collections::{hash_map::Entry, HashMap},
     fmt::{self, Debug, Display},
     future::Future,
-    mem,
+    io, mem,
     num::NonZeroU32,
     str::FromStr,
-    sync::{Arc, Mutex as SyncMutex, MutexGuard, PoisonError},
+    sync::{
+        atomic::{AtomicBool, Ordering},
+        Arc, Mutex as SyncMutex, MutexGuard, PoisonError,
+    },
 };
 
 #[cfg(feature = "tls")]
@@ -77,6 +80,9 @@ pub struct Session<T: Transport> {
     context: Context,
     last_message_id: rpc::MessageId,
     requests: Requests,
+    // Set once a receiver has seen the end of the peer's stream: nothing can be answered any more,
+    // so nothing more is sent either (the send could otherwise block on a peer that is gone).
+    peer_closed: Arc<AtomicBool>,
 }
 
 // The map of outstanding requests is never locked across an `.await`, so that a reply taken off
@@ -232,6 +238,7 @@ impl<T: Transport> Session<T> {
             context,
             requests,
             last_message_id: rpc::MessageId::default(),
+            peer_closed: Arc::default(),
         })
     }
 
@@ -274,6 +281,12 @@ impl<T: Transport> Session<T> {
         O: rpc::Operation,
         F: FnOnce(O::Builder<'_>) -> Result<O, Error> + Send,
     {
+        if self.peer_closed.load(Ordering::Acquire) {
+            return Err(Error::Transport(io::Error::new(
+                io::ErrorKind::NotConnected,
+                "the peer has closed the connection",
+            )));
+        }
         let message_id = self.last_message_id.increment();
         let request = O::new(&self.context, build_fn)
             .map(|operation| rpc::Request::new(message_id, operation))?;
@@ -297,14 +310,16 @@ impl<T: Transport> Session<T> {
         }
         let requests = self.requests.clone();
         let rx = self.transport_rx.clone();
-        Ok(Self::recv::<O>(message_id, requests, rx))
+        let peer_closed = self.peer_closed.clone();
+        Ok(Self::recv::<O>(message_id, requests, rx, peer_closed))
     }
 
-    #[tracing::instrument(skip(requests, rx), level = "debug")]
+    #[tracing::instrument(skip(requests, rx, peer_closed), level = "debug")]
     async fn recv<O>(
         message_id: rpc::MessageId,
         requests: Requests,
         rx: Arc<Mutex<<T as Transport>::RecvHandle>>,
+        peer_closed: Arc<AtomicBool>,
     ) -> Result<<O::Reply as IntoResult>::Ok, Error>
     where
         O: rpc::Operation,
@@ -332,7 +347,17 @@ impl<T: Transport> Session<T> {
             tracing::debug!("response to {message_id:?} not yet ready");
             #[cfg(bgpfu_verif)]
             verif::sched_point("recv:before-transport-recv").await;
-            let reply = rpc::PartialReply::recv(&mut *rx_guard).await?;
+            let reply = match rpc::PartialReply::recv(&mut *rx_guard).await {
+                Ok(reply) => reply,
+                Err(err) => {
+                    if matches!(&err, Error::DequeueMessage)
+                        || matches!(&err, Error::Transport(err) if err.kind() == io::ErrorKind::UnexpectedEof)
+                    {
+                        peer_closed.store(true, Ordering::Release);
+                    }
+                    break Err(err);
+                }
+            };
             #[cfg(bgpfu_verif)]
             verif::sched_point("recv:after-transport-recv").await;
             #[allow(clippy::significant_drop_in_scrutinee)]
